@@ -5,6 +5,8 @@
  * projection (assumed contract) returned.  -- C04, C13 */
 /*@ uses Math_AngNormalize TransverseMercator_Forward PolarStereographic_Forward */
 /*@ ghost */
+/* results of the last call, for callers that replace the call by this contract (UTMUPS::Transfer) */
+int g_UF_zone; _Bool g_UF_northp; double g_UF_x, g_UF_y; int g_UF_setzone;
 #define UF_OLD_SAME (*zone == __CPROVER_old(*zone) && *northp == __CPROVER_old(*northp) && VERIF_SAME_D(*x, __CPROVER_old(*x)) && \
    VERIF_SAME_D(*y, __CPROVER_old(*y)) && VERIF_SAME_D(*gamma, __CPROVER_old(*gamma)) && VERIF_SAME_D(*k, __CPROVER_old(*k)))
 #define UF_OK (!verif_thrown && *zone != -4 && !isinf(lon) && !isnan(lat) && !isnan(lon))   /* nothing is claimed for lon = +-inf with an explicitly requested zone */
@@ -43,3 +45,7 @@ __CPROVER_ensures(!UF_OK ||
     *y <= (*zone != 0 ? (*northp ? 9500000.0 : 19500000.0) : *northp ? 2700000.0 : 3200000.0) + (mgrslimits ? 0.0 : 100000.0)))
 /*@ clause post.zone_choice src=standard props=C04 */
 __CPROVER_ensures(!UF_OK || (setzone >= 0 ? *zone == setzone : ((*zone == 0) == !(setzone == -2 || (lat >= -80.0 && lat < 84.0)))))
+/*@ clause frame.ghost_results src=ghost only=replace */
+__CPROVER_assigns(g_UF_zone, g_UF_northp, g_UF_x, g_UF_y, g_UF_setzone)
+/*@ clause post.ghost_results src=ghost only=replace */
+__CPROVER_ensures(g_UF_setzone == setzone && (verif_thrown || (g_UF_zone == *zone && (g_UF_northp != 0) == (*northp != 0) && VERIF_SAME_D(g_UF_x, *x) && VERIF_SAME_D(g_UF_y, *y))))
